@@ -81,8 +81,9 @@ def build_params(world, shared=None):
     y0 = np.array(world["y0"], dtype=float)
     sc = kw.pop("scaling", None)
     if sc is not None:
+        wdt = np.dtype(sc.get("dtype", "int64"))
         kw["scaling"] = Scaling(
-            np.array(sc["var"], dtype=int), np.array(sc["cons"], dtype=int), int(sc.get("obj", 0))
+            np.array(sc["var"], dtype=wdt), np.array(sc["cons"], dtype=wdt), int(sc.get("obj", 0))
         )
     for key, dflt in (("scaling_primal", x0), ("scaling_dual", y0)):
         v = kw.get(key)
@@ -101,7 +102,7 @@ class Trial:
     __slots__ = (
         "t", "inp", "dt", "rho", "lamb", "accepted", "out", "reads_before", "reads_after",
         "evals_before", "evals_after", "nfired_before", "nfired_after", "lin_before", "lin_after",
-        "exc", "penalty", "solver_rho_cb", "filter_after", "cb",
+        "exc", "penalty", "solver_rho_cb", "filter_after", "filter_before", "cb",
     )
 
     def key(self):
@@ -134,11 +135,20 @@ class RecordingSolver(Solver):
 
     def _compute_step(self, *args, **kwargs):
         ex = self._ex
+        if ex.nested:
+            # a step computation issued from inside an observer (e.g. a callback that calls
+            # perform_iteration on its own solver): not a trial step of the solve under observation
+            return super()._compute_step(*args, **kwargs)
         try:
             ba = _STEP_SIG.bind(self, *args, **kwargs)
-            iterate, rho, dt = ba.arguments["iterate"], ba.arguments["rho"], ba.arguments["dt"]
-        except (TypeError, KeyError) as e:
-            raise HarnessError("trial-log seam lost: Solver._compute_step%s no longer takes iterate/rho/dt (%s)" % (_STEP_SIG, e))
+            A = ba.arguments
+            iterate = A["iterate"]
+            # the penalty and the step size may be passed or kept on the solver object
+            rho = A["rho"] if "rho" in A else self.rho
+            dt = A["dt"] if "dt" in A else 1.0 / (A["lamb"] if "lamb" in A else self.lamb)
+            rho, dt = float(rho), float(dt)
+        except (TypeError, KeyError, AttributeError) as e:
+            raise HarnessError("trial-log seam lost: Solver._compute_step%s no longer exposes iterate / penalty / step size (%s)" % (_STEP_SIG, e))
         ex.problem.phase = "run"
         ex._hook_penalty(self)
         lim = self.params.iteration_limit
@@ -157,6 +167,7 @@ class RecordingSolver(Solver):
         tr.cb = None
         tr.solver_rho_cb = None
         tr.filter_after = None
+        tr.filter_before = None
         tr.lamb = float("nan")
         tr.accepted = False
         tr.out = iterate
@@ -207,6 +218,10 @@ class Execution:
         self.t_begin = None
         self.reads_at_begin = 0
         self.aborted = False
+        self.nested = 0
+        self.foreign_cbs = 0
+        self.finished = False
+        self.params_changed = []
 
     def log(self, ev):
         self.events.append(ev)
@@ -221,6 +236,12 @@ class Execution:
         ex = self
 
         def update(prev_iterate, next_iterate):
+            before = None
+            if getattr(ps, "entries", None) is not None and hasattr(ps, "iterate_entry"):
+                try:
+                    before = (list(ps.entries), float(ps.rho), tuple(float(v) for v in ps.iterate_entry(next_iterate)))
+                except Exception:  # noqa  (the pair cannot be formed: nothing to model)
+                    before = None
             res = orig(prev_iterate, next_iterate)
             if ex.trials:
                 tr = ex.trials[-1]
@@ -228,6 +249,7 @@ class Execution:
                 ents = getattr(ps, "entries", None)
                 if ents is not None:
                     tr.filter_after = (list(ents), float(ps.rho))
+                    tr.filter_before = before
             return res
 
         ps.update = update
@@ -297,6 +319,20 @@ class Execution:
         return acc[-1] if acc else None
 
 
+def _params_snapshot(p):
+    snap = {}
+    for k, v in vars(p).items():
+        if isinstance(v, np.ndarray):
+            snap[k] = ("arr", v.dtype.str, v.tobytes())
+        elif k == "scaling" and v is not None:
+            snap[k] = ("scaling", v.var_weights.dtype.str, v.var_weights.tobytes(), v.cons_weights.dtype.str, v.cons_weights.tobytes(), repr(v.obj_weight))
+        elif callable(v) and not isinstance(v, type):
+            snap[k] = ("callable", id(v))
+        else:
+            snap[k] = ("val", repr(v))
+    return snap
+
+
 def _touch(it, nit, acc):
     for o in (it, nit):
         try:
@@ -324,7 +360,7 @@ def _innermost(e):
     return (chain[-1] if chain else "?"), tuple(chain[-6:])
 
 
-def execute(world, *, problem=None, solver=None, params=None, reuse_solver=False, x0=None, y0=None, alias=False):
+def execute(world, *, problem=None, solver=None, params=None, reuse_solver=False, x0=None, y0=None, alias=False, keep_callbacks=False):
     """Run one solve described by `world`.  `problem`/`solver`/`params` may be
     supplied by history-style profiles that re-use objects across solves."""
     ex = Execution(world)
@@ -368,6 +404,9 @@ def execute(world, *, problem=None, solver=None, params=None, reuse_solver=False
                 from pygradflow.integration.integration_solver import IntegrationSolver
 
                 solver = IntegrationSolver(problem, params)
+                # progress of the integration solver at each clock read: completed integrations
+                # (= path segments beyond the start column; needs collect_path)
+                clock.probe = lambda _s=solver: (len(_s.path) - 1) if getattr(_s, "path", None) else 0
             elif params == "default":
                 solver = RecordingSolver(problem)
                 ex.params = solver.params
@@ -382,6 +421,11 @@ def execute(world, *, problem=None, solver=None, params=None, reuse_solver=False
             strategy_probe = []
 
             def rec(it, nit, acc):
+                if ex.finished:
+                    # this observer was registered for an earlier solve of *its* solver and left in
+                    # place; being called now means somebody else's steps are announced to it
+                    ex.foreign_cbs += 1
+                    return
                 ex.cbs.append((it, nit, bool(acc), float(solver.rho)))
                 if ex.trials:
                     ex.trials[-1].cb = len(ex.cbs) - 1
@@ -392,7 +436,44 @@ def execute(world, *, problem=None, solver=None, params=None, reuse_solver=False
             for name in obs.get("callbacks", ()):
                 if name == "touch":
                     handles.append(solver.callbacks.register(CallbackType.ComputedStep, _touch))
+                if name == "oneshot":
+                    # an observer that unregisters itself from inside its own notification
+                    box = {}
+
+                    def oneshot(it, nit, acc, _solver=solver, _box=box):
+                        _box["n"] = _box.get("n", 0) + 1
+                        if _box["n"] == 2 and _box.get("h") is not None:
+                            _solver.callbacks.unregister(_box["h"])
+                            _box["h"] = None
+
+                    box["h"] = solver.callbacks.register(CallbackType.ComputedStep, oneshot)
+                if name == "spawner":
+                    # an observer that registers another observer while the solve is running
+                    box2 = {}
+
+                    def spawner(it, nit, acc, _solver=solver, _box=box2, _handles=handles):
+                        _box["n"] = _box.get("n", 0) + 1
+                        if _box["n"] == 2:
+                            _handles.append(_solver.callbacks.register(CallbackType.ComputedStep, lambda a, b, c: None))
+
+                    handles.append(solver.callbacks.register(CallbackType.ComputedStep, spawner))
+                if name == "reenter":
+                    # an observer that uses the solver's own public single-step API while the solve
+                    # is in progress (on private copies of the current point)
+                    def reenter(it, nit, acc, _solver=solver, _ex=ex, _tr=None):
+                        _ex.nested += 1
+                        try:
+                            rt_ = _ex.ref_transform()
+                            ux, uy, _ = rt_.to_user(np.array(it.x, copy=True), np.array(it.y, copy=True), np.zeros_like(it.x))
+                            _solver.perform_iteration(ux, uy)
+                        except Exception:  # noqa  observers must not die
+                            pass
+                        finally:
+                            _ex.nested -= 1
+
+                    handles.append(solver.callbacks.register(CallbackType.ComputedStep, reenter))
         ex.x0_arg, ex.y0_arg = x0.copy(), y0.copy()
+        psnap = _params_snapshot(ex.params) if ex.params is not None and not isinstance(ex.params, str) else None
         # fault positions and per-solve records count from solve.begin, also on a re-used device
         problem.count = {c: 0 for c in problem.count}
         problem.fired = []
@@ -406,10 +487,18 @@ def execute(world, *, problem=None, solver=None, params=None, reuse_solver=False
         ex.reads_at_begin = clock.n
         ex.log(("solve.begin",))
         try:
-            r = solver.solve(ex.x0_arg, ex.y0_arg)
+            sf = world.get("start_form") or {}
+            # solve() also takes no start (None = the origin clipped to the box / zero multipliers) and scalars
+            xa = None if sf.get("x") == "none" else (float(x0[0]) if sf.get("x") == "scalar" and x0.size else ex.x0_arg)
+            ya = None if sf.get("y") == "none" else (float(y0[0]) if sf.get("y") == "scalar" and y0.size else ex.y0_arg)
+            r = solver.solve(xa, ya)
         finally:
             problem.armed = False
-            if isinstance(solver, RecordingSolver):
+            ex.finished = True
+            if psnap is not None:
+                after = _params_snapshot(ex.params)
+                ex.params_changed = sorted(k for k in set(psnap) | set(after) if psnap.get(k) != after.get(k))
+            if isinstance(solver, RecordingSolver) and not keep_callbacks:
                 for h in handles:
                     solver.callbacks.unregister(h)
         ex.result = r
